@@ -5,7 +5,29 @@
 #include <eigen3/Eigen/Sparse>
 #include <limits>
 
+#ifdef COLOQUINTE_VERIF
+#include "place_global/verif_hooks.hpp"
+#endif
+
 namespace coloquinte {
+#ifdef COLOQUINTE_VERIF
+namespace verif {
+std::atomic<SolveHook> onSolveBegin{nullptr};
+std::atomic<SolveHook> onSolveEnd{nullptr};
+namespace {
+struct SolveScope {
+  explicit SolveScope(const void *m) : model(m) {
+    if (SolveHook h = onSolveBegin.load()) h(model);
+  }
+  ~SolveScope() {
+    if (SolveHook h = onSolveEnd.load()) h(model);
+  }
+  const void *model;
+};
+}  // namespace
+}  // namespace verif
+#endif
+
 NetModel::Parameters::Parameters() {
   netModel = NetModelOption::BoundToBound;
   approximationDistance = 10.0;
@@ -644,6 +666,9 @@ std::vector<float> NetModel::solveWithPenalty(
     const std::vector<float> &netPlacement,
     const std::vector<float> &placementTarget,
     const std::vector<float> &penaltyStrength, const Parameters &params) const {
+#ifdef COLOQUINTE_VERIF
+  verif::SolveScope verifScope(this);
+#endif
   MatrixCreator builder = MatrixCreator::create(
       *this, netPlacement, params.approximationDistance, params.netModel);
   builder.addPenalty(netPlacement, placementTarget, penaltyStrength,
